@@ -1,6 +1,7 @@
 (* C05 - Handlers bind each parameter from its declared source and enforce requiredness.
    Conversion part: every representable value of the declared type survives text -> value. *)
-From Gleece Require Import Base.Bytes Model.Bind Proofs.BindProofs.
+From Gleece Require Import Base.Bytes Model.Bind Proofs.BindProofs Model.Project Model.Spec Model.Router
+     Model.RouterParams Proofs.RouterParamsProofs.
 From Coq Require Import String.
 Open Scope N_scope.
 
@@ -33,6 +34,24 @@ Theorem C05_uint32_refuted :
   exists n, in_range PUint (VUint n) = true /\ option_map VUint (parse_uint 32 (print_N n)) = None.
 Proof. exact uint32_conversion_refuted. Qed.
 
+(* what the per-run translation obligation on a generated routes file yields, handler by handler
+   and parameter by parameter: declared location and wire name, conversion function and bit size
+   of the declared type, reduced validator; arguments passed in signature order *)
+Theorem C05_translated_handlers_sound : forall e p hs,
+  router_params_ok e p hs = true ->
+  Forall2 (fun cm h => handler_params_ok e (snd cm) (fst h) (snd h) = true) (routes_of p) hs.
+Proof. exact router_params_sound. Qed.
+
+Theorem C05_translated_handler_sound : forall e m tps args,
+  handler_params_ok e m tps args = true ->
+  Forall2 (fun p t => tparam_ok e p t = true) (filter (fun p => negb (pa_ctx p)) (m_params m)) tps /\
+  Forall2 (fun p a => arg_ok p a = true) (m_params m) args.
+Proof. exact handler_params_sound. Qed.
+
+Theorem C05_wire_names : forall e p t, tparam_ok e p t = true -> loc_eqb (pa_loc p) LBody = false ->
+  forall w, In w (tp_wires t) -> w = wire_name p.
+Proof. exact tparam_ok_wire. Qed.
+
 Example C05_nonvacuous :
   convert PUint (print (VUint 18446744073709551615)) = Some (VUint 18446744073709551615) /\
   convert (PIntN 8) (print (VInt (-128))) = Some (VInt (-128)) /\
@@ -48,4 +67,7 @@ Print Assumptions C05_uint_never_wraps.
 Print Assumptions C05_bind_roundtrip.
 Print Assumptions C05_oracle_holds.
 Print Assumptions C05_uint32_refuted.
+Print Assumptions C05_translated_handlers_sound.
+Print Assumptions C05_translated_handler_sound.
+Print Assumptions C05_wire_names.
 Print Assumptions C05_nonvacuous.
